@@ -140,6 +140,9 @@ func routingChild(sc Scenario, repo string) {
 
 	var res ChildResult
 	var shown int64
+	if sc.Conform {
+		startRecorder() // after start-up: the recorded goroutines are transactions and admin calls only
+	}
 	admin := func(method, path string) {
 		rec := httptest.NewRecorder()
 		mux.ServeHTTP(rec, httptest.NewRequest(method, path, nil))
@@ -202,6 +205,7 @@ func routingChild(sc Scenario, repo string) {
 		wg.Add(1)
 		go func(g int) {
 			defer wg.Done()
+			registerRole(roleTxn)
 			start.Wait()
 			for i := 0; i < sc.PerG || (adminsLeft.Load() > 0 && i < 50*sc.PerG); i++ {
 				txn(fmt.Sprintf("t-%d-%d", g, i))
@@ -214,6 +218,7 @@ func routingChild(sc Scenario, repo string) {
 		go func() {
 			defer wg.Done()
 			defer adminsLeft.Add(-1)
+			registerRole(roleAdmin)
 			start.Wait()
 			for i := 0; i < sc.Reloads; i++ {
 				admin(http.MethodPost, "/load_flows")
@@ -236,6 +241,9 @@ func routingChild(sc Scenario, repo string) {
 	}
 	start.Done()
 	wg.Wait()
+	if sc.Conform {
+		printRecorded()
+	}
 	b, _ := json.Marshal(res)
 	fmt.Println("C18RESULT " + string(b))
 }
